@@ -13,7 +13,7 @@ trap 'git -C /repo worktree remove --force "$WT" 2>/dev/null; rm -rf "$WT" "$STA
 mkdir -p "$WT/SEED"; cp -r "$SEED"/. "$WT/SEED/"
 cd "$WT" || exit 2
 if [ -f SEED/demo/run.sh ]; then
-  sh SEED/demo/run.sh >"$WT/SEED/demo-clean.log" 2>&1; echo "demo without patch: rc=$? (want 0)"
+  bash SEED/demo/run.sh >"$WT/SEED/demo-clean.log" 2>&1; echo "demo without patch: rc=$? (want 0)"
 fi
 git apply SEED/patch.diff || { echo "PATCH DOES NOT APPLY"; exit 2; }
 mv "$WT/SEED" "$STASH"
@@ -23,7 +23,7 @@ if [ $SKIP -eq 0 ]; then
 fi
 mv "$STASH" "$WT/SEED"
 if [ -f SEED/demo/run.sh ]; then
-  sh SEED/demo/run.sh >"$WT/SEED/demo-patched.log" 2>&1; echo "demo with patch: rc=$? (want non-zero)"
+  bash SEED/demo/run.sh >"$WT/SEED/demo-patched.log" 2>&1; echo "demo with patch: rc=$? (want non-zero)"
 fi
 rm -rf "$WT/SEED"
 for id in "$@"; do
